@@ -603,3 +603,154 @@ Proof.
   - destruct (fl mod 256 =? sp_comp) eqn:E; [apply Z.eqb_eq in E; unfold sp_comp in E; contradiction|].
     rewrite app_nil_l. reflexivity.
 Qed.
+
+(** ** Vdata header (vpackvs) and Vgroup (vpackvg) records *)
+Lemma p_rep_enc_n : forall {A} (p : list Z -> option (A * list Z)) (enc : A -> list Z) (ok : A -> Prop),
+  (forall x r, ok x -> p (enc x ++ r) = Some (x, r)) ->
+  forall n xs r, n = List.length xs -> Forall ok xs -> p_rep p n (flat_map enc xs ++ r) = Some (xs, r).
+Proof. intros. subst n. eapply p_rep_enc; eauto. Qed.
+
+Lemma land1_odd : forall f, Z.land f 1 = if Z.odd f then 1 else 0.
+Proof.
+  intro f. change 1 with (Z.ones 1) at 1. rewrite Z.land_ones by lia. change (2 ^ 1) with 2.
+  rewrite <- Z.bit0_mod, Z.bit0_odd. destruct (Z.odd f); reflexivity.
+Qed.
+
+Section Flags.
+  Context {A : Type} (pa : list Z -> option (A * list Z)) (enca : A -> list Z) (oka : A -> Prop).
+  Hypothesis rta : forall x r, oka x -> pa (enca x ++ r) = Some (x, r).
+  Hypothesis lena : forall x, (1 <= List.length (enca x))%nat.
+
+  Lemma p_flags_enc : forall version flags (attrs : list A) r,
+    (version = 4 <-> flags <> 0) -> u32 flags -> (Z.odd flags = false -> attrs = []) ->
+    i32 (zlen attrs) -> Forall oka attrs ->
+    p_flags pa version
+      ((if flags =? 0 then [] else
+          U32 flags ++ if Z.land flags 1 =? 0 then [] else I32 (zlen attrs) ++ flat_map enca attrs) ++ r)
+    = Some (flags, attrs, r).
+  Proof.
+    intros version flags attrs r Hv Hf Ho Hn Ha. unfold p_flags.
+    destruct (flags =? 0) eqn:E0.
+    - apply Z.eqb_eq in E0. subst flags.
+      destruct (version =? 4) eqn:E4; [apply Z.eqb_eq in E4; apply Hv in E4; congruence|].
+      rewrite Ho by reflexivity. reflexivity.
+    - apply Z.eqb_neq in E0. assert (version = 4) as V by (apply Hv; assumption). rewrite V. cbn [Z.eqb Pos.eqb].
+      rewrite <- app_assoc. step. rewrite land1_odd. destruct (Z.odd flags) eqn:Od.
+      + change (1 =? 0) with false. cbv iota. rewrite <- app_assoc. step.
+        rewrite p_count_zlen by (rewrite app_length; pose proof (flat_map_len enca lena attrs); lia).
+        rewrite (p_rep_enc pa enca oka) by assumption. reflexivity.
+      + change (0 =? 0) with true. cbv iota. rewrite Ho by reflexivity. reflexivity.
+  Qed.
+End Flags.
+
+Definition vattr_ok (a : vattr) : Prop := i32 (va_findex a) /\ u16 (va_tag a) /\ u16 (va_ref a).
+
+Lemma p_vattr_enc : forall a r, vattr_ok a -> p_vattr (vattr_enc a ++ r) = Some (a, r).
+Proof.
+  intros [f t rf] r H. unfold vattr_ok in H; projs. unfold vattr_enc, p_vattr; projs.
+  rewrite <- !app_assoc. do 3 step. reflexivity.
+Qed.
+
+Definition tagref_ok (a : Z * Z) : Prop := u16 (fst a) /\ u16 (snd a).
+
+Lemma p_tagref_enc : forall a r, tagref_ok a -> p_tagref (vgattr_enc a ++ r) = Some (a, r).
+Proof.
+  intros [t rf] r H. unfold tagref_ok in H; projs. unfold vgattr_enc, p_tagref; projs.
+  rewrite <- !app_assoc. do 2 step. reflexivity.
+Qed.
+
+Lemma skipn_exact : forall {A} (a b : list A), skipn (List.length a) (a ++ b) = b.
+Proof. intros. rewrite skipn_app, skipn_all, Nat.sub_diag. reflexivity. Qed.
+
+Lemma tail_version_i : forall body a b,
+  tail_version (body ++ I16 a ++ I16 b ++ [0]) = Some (a mod 65536, b mod 65536).
+Proof.
+  intros body a b. unfold tail_version.
+  assert (List.length (body ++ I16 a ++ I16 b ++ [0]) = (List.length body + 5)%nat) as L
+    by (rewrite !app_length, !enc_len_i16; reflexivity).
+  rewrite L. destruct (Nat.ltb (List.length body + 5) 5) eqn:E; [apply Nat.ltb_lt in E; lia|].
+  replace (List.length body + 5 - 5)%nat with (List.length body) by lia. rewrite skipn_exact.
+  rewrite !INT16ENCODE_shape. cbn [app p_u16]. rewrite !be16_bytes, !mod32_mod16. reflexivity.
+Qed.
+
+Lemma tail_version_u : forall body a b, u16 a -> u16 b ->
+  tail_version (body ++ U16 a ++ U16 b ++ [0]) = Some (a, b).
+Proof.
+  intros body a b Ha Hb. unfold tail_version.
+  assert (List.length (body ++ U16 a ++ U16 b ++ [0]) = (List.length body + 5)%nat) as L
+    by (rewrite !app_length, !enc_len_u16; reflexivity).
+  rewrite L. destruct (Nat.ltb (List.length body + 5) 5) eqn:E; [apply Nat.ltb_lt in E; lia|].
+  replace (List.length body + 5 - 5)%nat with (List.length body) by lia. rewrite skipn_exact.
+  rewrite p_u16_enc by assumption. rewrite p_u16_enc by assumption. reflexivity.
+Qed.
+
+Definition strs_ok (l : list (list Z)) : Prop := Forall (fun s => zlen s < 32768) l.
+
+Definition vh_ok (v : vh) : Prop :=
+  i16 (vh_interlace v) /\ i32 (vh_nvert v) /\ u16 (vh_ivsize v) /\ zlen (vh_types v) < 32768 /\
+  Forall i16 (vh_types v) /\ Forall u16 (vh_isizes v) /\ Forall u16 (vh_offs v) /\ Forall u16 (vh_orders v) /\
+  strs_ok (vh_names v) /\
+  List.length (vh_types v) = List.length (vh_isizes v) /\ List.length (vh_types v) = List.length (vh_offs v) /\
+  List.length (vh_types v) = List.length (vh_orders v) /\ List.length (vh_types v) = List.length (vh_names v) /\
+  zlen (vh_name v) < 32768 /\ zlen (vh_class v) < 32768 /\ u16 (vh_extag v) /\ u16 (vh_exref v) /\
+  i16 (vh_version v) /\ i16 (vh_more v) /\ u32 (vh_flags v) /\
+  (vh_version v = 4 <-> vh_flags v <> 0) /\ (Z.odd (vh_flags v) = false -> vh_attrs v = []) /\
+  i32 (zlen (vh_attrs v)) /\ Forall vattr_ok (vh_attrs v).
+
+Lemma parse_vh_enc : forall v, vh_ok v -> parse_vh (vh_encode v) = Some v.
+Proof.
+  intros [il nv iv ty isz off ord nms nm cl et er ver more fl al] H. unfold vh_ok in H; projs.
+  destruct H as (H1 & H2 & H3 & H4 & H5 & H6 & H7 & H8 & H9 & L1 & L2 & L3 & L4 & H10 & H11 & H12 & H13 &
+                 H14 & H15 & H16 & H17 & H18 & H19 & H20).
+  unfold parse_vh, vh_encode. rewrite vh_tail_eq, vh_body_eq; projs.
+  rewrite tail_version_i. cbv beta iota zeta. rewrite !sgn16_mod by assumption.
+  rewrite <- !app_assoc.
+  step. step. step. rewrite p_i16_enc by (pose proof (zlen_nonneg ty); rng). cbv beta iota.
+  assert (forall x, (1 <= List.length (I16 x))%nat) as Li by (intro; rewrite enc_len_i16; lia).
+  rewrite p_count_zlen by (rewrite app_length; pose proof (flat_map_len I16 Li ty); lia).
+  rewrite (p_rep_enc_n p_i16 I16 i16) by (auto using p_i16_enc).
+  rewrite (p_rep_enc_n p_u16 U16 u16) by (auto using p_u16_enc).
+  rewrite (p_rep_enc_n p_u16 U16 u16) by (auto using p_u16_enc).
+  rewrite (p_rep_enc_n p_u16 U16 u16) by (auto using p_u16_enc).
+  rewrite (p_rep_enc_n p_str16 str_i16 (fun s => zlen s < 32768)) by (auto using p_str16_i).
+  rewrite p_str16_i by assumption. rewrite p_str16_i by assumption.
+  do 4 step.
+  rewrite (p_flags_enc p_vattr vattr_enc vattr_ok p_vattr_enc) by
+    (try assumption; intro x; unfold vattr_enc; rewrite !app_length, enc_len_i32; lia).
+  do 2 step. rewrite !Z.eqb_refl. reflexivity.
+Qed.
+
+Definition vg_ok (g : vg) : Prop :=
+  zlen (vg_tags g) < 65536 /\ Forall u16 (vg_tags g) /\ Forall u16 (vg_refs g) /\
+  List.length (vg_tags g) = List.length (vg_refs g) /\
+  zlen (vg_name g) < 65536 /\ zlen (vg_class g) < 65536 /\ u16 (vg_extag g) /\ u16 (vg_exref g) /\
+  u32 (vg_flags g) /\ u16 (vg_version g) /\ u16 (vg_more g) /\
+  (vg_version g = 4 <-> vg_flags g <> 0) /\ (Z.odd (vg_flags g) = false -> vg_attrs g = []) /\
+  i32 (zlen (vg_attrs g)) /\ Forall tagref_ok (vg_attrs g).
+
+Lemma vg_out_version_ok : forall g, vg_ok g -> vg_out_version g = vg_version g.
+Proof.
+  intros g H. unfold vg_ok in H. destruct H as (_ & _ & _ & _ & _ & _ & _ & _ & _ & _ & _ & Hv & _).
+  unfold vg_out_version. destruct (vg_flags g =? 0) eqn:E; [reflexivity|].
+  apply Z.eqb_neq in E. apply Hv in E. rewrite E. reflexivity.
+Qed.
+
+Lemma parse_vg_enc : forall g, vg_ok g -> parse_vg (vg_encode g) = Some g.
+Proof.
+  intros g H. pose proof (vg_out_version_ok g H) as OV.
+  destruct g as [tg rf nm cl et er fl al ver more]. unfold vg_ok in H; projs.
+  destruct H as (H1 & H2 & H3 & L1 & H4 & H5 & H6 & H7 & H8 & H9 & H10 & H11 & H12 & H13 & H14).
+  unfold parse_vg, vg_encode. rewrite vg_tail_eq, vg_body_eq, OV; projs.
+  rewrite tail_version_u by assumption. cbv beta iota.
+  rewrite <- !app_assoc.
+  rewrite p_u16_enc by (pose proof (zlen_nonneg tg); rng). cbv beta iota.
+  assert (forall x, (1 <= List.length (U16 x))%nat) as Lu by (intro; rewrite enc_len_u16; lia).
+  rewrite p_count_zlen by (rewrite app_length; pose proof (flat_map_len U16 Lu tg); lia).
+  rewrite (p_rep_enc_n p_u16 U16 u16) by (auto using p_u16_enc).
+  rewrite (p_rep_enc_n p_u16 U16 u16) by (auto using p_u16_enc).
+  rewrite p_str16_u by assumption. rewrite p_str16_u by assumption.
+  do 2 step.
+  rewrite (p_flags_enc p_tagref vgattr_enc tagref_ok p_tagref_enc) by
+    (try assumption; intro x; unfold vgattr_enc; rewrite !app_length, enc_len_u16; lia).
+  do 2 step. rewrite !Z.eqb_refl. reflexivity.
+Qed.
